@@ -203,6 +203,39 @@ func nameCase(raw json.RawMessage, c *fcase, idx int) {
 			}
 		}()
 	}
+	// --- the filter is a function of each sample alone (FilterD = FlattenSeq of FilterOne): the outcome for a sample
+	// does not depend on whether another sample with the same stack shares its location slice (what an interning
+	// merger, or any user of the API, may hand over): every sample twice, the twin once with a slice of its own and
+	// once sharing the original's
+	if len(c.Samples) > 0 {
+		dup := ap
+		dup.Samples = append(append([]vlib.ASample{}, c.Samples...), c.Samples...)
+		pa, pb := conc.Profile(dup), conc.Profile(dup)
+		n := len(c.Samples)
+		if len(pa.Sample) == 2*n && len(pb.Sample) == 2*n {
+			for i := 0; i < n; i++ {
+				pb.Sample[i+n].Location = pb.Sample[i].Location
+			}
+			func() {
+				defer func() {
+					if r := recover(); r != nil {
+						run.Violate("api", "name:"+sg+":panic", fmt.Sprint(r), raw, conc)
+					}
+				}()
+				for _, p := range []*profile.Profile{pa, pb} {
+					p.FilterSamplesByName(comp(c.Opt.Focus), comp(c.Opt.Ignore), comp(c.Opt.Hide), comp(c.Opt.Show))
+					p.ShowFrom(comp(c.Opt.ShowFrom))
+				}
+				ja, _ := json.Marshal(vlib.Project(pa))
+				jb, _ := json.Marshal(vlib.Project(pb))
+				if !bytes.Equal(ja, jb) {
+					run.Violate("api", "name:"+sg+":shared-stack-slices", fmt.Sprintf("samples with the same stack that share one location slice are filtered differently from samples with slices of their own: %s vs %s", jb, ja), raw, conc)
+				}
+			}()
+		} else {
+			run.Infra("c06: the concretisation merged duplicated samples")
+		}
+	}
 	// --- the whole driver (every third case; the API path is the same code)
 	if idx%3 == int(run.Seed)%3 {
 		p := conc.Profile(ap)
